@@ -42,7 +42,8 @@ LevelTab   == << <<1, 1>>, <<2, 1>>, <<3, 1>>, <<3, 2>>, <<1, 2>> >>
 RuntimeTab == << "", "none", "gvisor" >>
 Domain     == "apps.example.com"
 
-LeaseSet == {[owner |-> o, dseq |-> d, gseq |-> g, oseq |-> s, provider |-> p] :
+\* ns: the abstract namespace name of the lease (injective by construction); the harness ignores it
+LeaseSet == {[owner |-> o, dseq |-> d, gseq |-> g, oseq |-> s, provider |-> p, ns |-> ToString(<<o, d, g, s, p>>)] :
                o \in Owners, d \in DSeqs, g \in GSeqs, s \in OSeqs, p \in Providers}
 LeaseSeq == SetToSeq(LeaseSet)
 
